@@ -102,8 +102,10 @@ def _split_region(code: str, lo: int, hi: int):
                 brace -= 1
                 if brace < 0:
                     raise SplitError("unbalanced closing brace at top level")
-                if brace == 0 and is_fn:
+                if brace == 0 and (is_fn or re.match(r"namespace\b", code[start:i])):
+                    # a function body, or `namespace a { struct B {}; }` (the class of `except a.B:`; no `;` follows)
                     end = i + 1
+                    is_fn = False if not is_fn else is_fn
                     break
             elif ch == ";" and brace == 0 and paren == 0:
                 end = i + 1
